@@ -28,27 +28,28 @@ theorem claimCore_once {s s' : St} {orig W : Nat} {o : Out} (hW : s.week = some 
   · intro w t hne
     obtain ⟨g1, a, _, hle, ha, _, hc', _⟩ := claimMulti_spec hc
     obtain ⟨hfr, _⟩ := claimLoop_paid _ ha
+    obtain ⟨hw1, hw2, hw3⟩ := loop_window _ W hle
     rw [hc'] at hne
     have hpaid0 : (accumulateAdditional s W).a.paid = s.a.paid := accumulateAdditional_paid s W
-    by_contra hcon
-    apply hne
-    rw [← hpaid0]
-    apply hfr w t
-    simp only [USER_MAX_CLAIM_WEEKS] at hle ⊢
+    have hin : ¬ (w < (loopStart (startProgress (s.w.progress orig)
+        (Energy.queried (s.energy orig) s.epoch) W) W).week ∨
+        (loopStart (startProgress (s.w.progress orig)
+        (Energy.queried (s.energy orig) s.epoch) W) W).week +
+        loopLen (startProgress (s.w.progress orig) (Energy.queried (s.energy orig) s.epoch) W) W ≤ w) := by
+      intro hout
+      apply hne
+      rw [← hpaid0]
+      exact hfr w t hout
     cases hst : s.w.progress orig with
     | none =>
-      simp only [hst, startProgress, Nat.sub_self, Nat.not_lt_zero, if_false, Nat.zero_min,
-        Nat.add_zero]
+      exfalso
+      rw [hst] at hw1 hw2 hw3 hin
+      simp only [startProgress] at hw1 hw2 hw3 hin
       omega
     | some p =>
-      simp only [hst, startProgress] at hle ⊢
-      have hcon' : ¬ (W ≤ w + 4 ∧ w < W ∧ p.week ≤ w) := by
-        intro hh; exact hcon ⟨hh.1, hh.2.1, p, hst ▸ rfl, hh.2.2⟩
-      split
-      · rw [ClaimProgress.advanceMultipleWeeks_eq]
-        simp only
-        omega
-      · omega
+      rw [hst] at hw1 hw2 hw3 hin
+      simp only [startProgress] at hw1 hw2 hw3 hin
+      exact ⟨by omega, by omega, p, rfl, by omega⟩
 
 /-! ### conservation -/
 
@@ -89,41 +90,6 @@ theorem init_BalInv (epoch lockEpochs : Nat) (known : List Tok) (contracts white
     usum_zero (fun _ _ => rfl)
   rw [h1, h2]
   rfl
-
-/-- the VM debits every transfer from the balance -/
-theorem payOut_spec : ∀ (l : List (Tok × Nat)) {bal bal' : Tok → Nat}, payOut bal l = some bal' →
-    ∀ t, bal' t + amountOf t l = bal t := by
-  intro l
-  induction l with
-  | nil =>
-    intro bal bal' h t
-    simp only [payOut, Option.some.injEq] at h
-    subst h; simp
-  | cons p ps ih =>
-    intro bal bal' h t
-    simp only [payOut, Option.bind_eq_some_iff, sub?_eq_some] at h
-    obtain ⟨v, ⟨hle, rfl⟩, h2⟩ := h
-    have := ih h2 t
-    rw [amountOf_cons]
-    by_cases ht : t = p.1
-    · subst ht
-      simp only [upd_same] at this
-      simp
-      omega
-    · have hne : ¬ (p.1 = t) := fun h => ht h.symm
-      simp only [upd_other _ _ ht] at this
-      simp [hne]
-      exact this
-
-theorem amountOf_filter_ne (t : Tok) (l : List (Tok × Nat)) (ht : t ≠ lockedTok) :
-    amountOf t (l.filter fun p => p.1 ≠ lockedTok) = amountOf t l := by
-  induction l with
-  | nil => rfl
-  | cons p ps ih =>
-    by_cases hp : p.1 = lockedTok
-    · have : ¬ (p.1 = t) := by rw [hp]; exact fun h => ht h.symm
-      simp [List.filter_cons, hp, amountOf_cons, this, ih]
-    · simp [List.filter_cons, hp, amountOf_cons, ih]
 
 /-- the claim loop: the ledger grows by exactly what is handed out; deposits are only moved
     from `accumulated` to `collected` -/
@@ -178,6 +144,19 @@ theorem accumulateAdditional_other (s : St) (W : Nat) (t : Tok) (ht : t ≠ lock
     have : ¬ (w = W - 1 ∧ t = lockedTok) := fun h => ht h.2
     simp [this]
 
+theorem accumulateAdditional_sums (s : St) (W : Nat) (t : Tok) (ht : t ≠ lockedTok) (K : Nat) :
+    paidAll (accumulateAdditional s W) t K = paidAll s t K ∧
+    owedAll (accumulateAdditional s W) t K = owedAll s t K ∧
+    curWeek (accumulateAdditional s W) = curWeek s := by
+  have hfw : (accumulateAdditional s W).firstWeek = s.firstWeek := by
+    unfold accumulateAdditional; split <;> rfl
+  refine ⟨?_, ?_, ?_⟩
+  · unfold paidAll; rw [accumulateAdditional_paid]
+  · unfold owedAll
+    exact usum_congr (fun w _ => by
+      rw [(accumulateAdditional_other s W t ht w).1, (accumulateAdditional_other s W t ht w).2.1])
+  · unfold curWeek; rw [hfw, (accumulateAdditional_energy s W).2]
+
 theorem accumulateAdditional_BalInv {s : St} (W : Nat) (hI : BalInv s) :
     BalInv (accumulateAdditional s W) := by
   have hep := accumulateAdditional_energy s W
@@ -185,81 +164,29 @@ theorem accumulateAdditional_BalInv {s : St} (W : Nat) (hI : BalInv s) :
     unfold accumulateAdditional; split <;> rfl
   refine ⟨by rw [hfw, hep.2]; exact hI.time, ?_⟩
   intro t ht K hK
-  have hcw : curWeek (accumulateAdditional s W) = curWeek s := by
-    unfold curWeek; rw [hfw, hep.2]
-  rw [hcw] at hK
-  have := hI.bal t ht K hK
-  unfold paidAll owedAll at *
-  rw [accumulateAdditional_paid, (accumulateAdditional_other s W t ht 0).2.2]
-  rw [usum_congr (g := fun w => s.a.accumulated w t + s.a.collected w t) (fun w _ => by
-    rw [(accumulateAdditional_other s W t ht w).1, (accumulateAdditional_other s W t ht w).2.1])]
-  exact this
+  obtain ⟨e1, e2, e3⟩ := accumulateAdditional_sums s W t ht K
+  rw [e3] at hK
+  rw [e1, e2, accumulateAdditional_bal]
+  exact hI.bal t ht K hK
 
 theorem claimCore_BalInv {s s' : St} {orig : Nat} {o : Out} (hI : BalInv s)
     (h : claimCore s orig = some (s', o)) : BalInv s' := by
-  obtain ⟨W, r, hW, hc, hep, hfw⟩ := claimCore_spec h
+  obtain ⟨W, r, hW, hc, hep, hfw, hbal⟩ := claimCore_spec h
   obtain ⟨hWc, _⟩ := week_some hW
   refine ⟨by rw [hfw, hep]; exact hI.time, ?_⟩
   intro t ht K hK
   have hcw : curWeek s' = curWeek s := by unfold curWeek; rw [hfw, hep]
   rw [hcw] at hK
-  have hI1 := (accumulateAdditional_BalInv W hI).bal t ht K (by
-    have : curWeek (accumulateAdditional s W) = curWeek s := by
-      unfold curWeek
-      rw [(accumulateAdditional_energy s W).2]
-      have : (accumulateAdditional s W).firstWeek = s.firstWeek := by
-        unfold accumulateAdditional; split <;> rfl
-      rw [this]
-    rw [this]; exact hK)
-  -- the loop
+  obtain ⟨e1, e2, _⟩ := accumulateAdditional_sums s W t ht K
+  have hI0 := hI.bal t ht K hK
   obtain ⟨g1, a, _, hle, ha, _, hca, hra⟩ := claimMulti_spec hc
-  have hweeks : (ClaimAcc.p (σ := Acc) ⟨g1, (accumulateAdditional s W).a,
-      (if USER_MAX_CLAIM_WEEKS < W - (startProgress (s.w.progress orig)
-          (Energy.queried (s.energy orig) s.epoch) W).week then
-        (startProgress (s.w.progress orig) (Energy.queried (s.energy orig) s.epoch) W).advanceMultipleWeeks
-          (W - (startProgress (s.w.progress orig) (Energy.queried (s.energy orig) s.epoch) W).week -
-            USER_MAX_CLAIM_WEEKS)
-       else startProgress (s.w.progress orig) (Energy.queried (s.energy orig) s.epoch) W), []⟩).week +
-      min (W - (startProgress (s.w.progress orig) (Energy.queried (s.energy orig) s.epoch) W).week)
-        USER_MAX_CLAIM_WEEKS ≤ K := by
-    simp only [USER_MAX_CLAIM_WEEKS] at hle ⊢
-    split
-    · rw [ClaimProgress.advanceMultipleWeeks_eq]; simp only; omega
-    · omega
-  obtain ⟨l1, l2⟩ := claimLoop_bal K _ ha hweeks t
+  obtain ⟨hw1, _, _⟩ := loop_window _ W hle
+  obtain ⟨l1, l2⟩ := claimLoop_bal K _ ha (by dsimp only; omega) t
+  dsimp only at l1 l2
   simp only [amountOf_nil, Nat.add_zero] at l1
   rw [← hca] at l1 l2
   rw [← hra] at l1
-  -- the balance
-  have hbal : s'.bal t + amountOf t r = (accumulateAdditional s W).bal t := by
-    simp only [claimCore, Option.bind_eq_bind, Option.bind_eq_some_iff] at h
-    obtain ⟨W2, hW2, ⟨g2, a2, r2⟩, hc2, h⟩ := h
-    rw [hW] at hW2
-    cases hW2
-    rw [accumulateAdditional_w, (accumulateAdditional_energy s W).1,
-      (accumulateAdditional_energy s W).2] at hc2
-    rw [hc] at hc2
-    simp only [Option.some.injEq, Prod.mk.injEq] at hc2
-    obtain ⟨rfl, rfl, rfl⟩ := hc2
-    dsimp only at h
-    split at h
-    · rename_i hemp
-      simp only [Option.pure_def, Option.some.injEq, Prod.mk.injEq] at h
-      obtain ⟨rfl, _⟩ := h
-      have : r = [] := List.isEmpty_iff.mp hemp
-      rw [this]; simp
-    · simp only [Option.bind_eq_bind, Option.bind_eq_some_iff] at h
-      obtain ⟨bal, hpay, h⟩ := h
-      have hp := payOut_spec _ hpay t
-      rw [amountOf_filter_ne t r ht] at hp
-      split at h
-      · simp only [Option.pure_def, Option.some.injEq, Prod.mk.injEq] at h
-        obtain ⟨rfl, _⟩ := h
-        exact hp
-      · simp only [Option.bind_eq_bind, Option.bind_eq_some_iff, Option.pure_def,
-          Option.some.injEq, Prod.mk.injEq] at h
-        obtain ⟨e, _, rfl, _⟩ := h
-        exact hp
+  have hb := hbal t ht
   unfold paidAll owedAll at *
   omega
 
@@ -269,32 +196,45 @@ theorem step_BalInv {s s' : St} {op : Op} {o : Out} (hI : BalInv s) (h : step s 
   | deposit c tok n amt =>
     simp only [step, deposit, Option.bind_eq_bind, Option.bind_eq_some_iff, req_eq_some,
       Option.pure_def, Option.some.injEq, Prod.mk.injEq] at h
-    obtain ⟨_, hlk, _, _, _, _, W, hW, _, hnl, rfl, _⟩ := h
+    obtain ⟨_, hlk, _, _, _, _, W, hW, _, hnl, hs, _⟩ := h
     obtain ⟨hWc, _⟩ := week_some hW
+    subst hs
     refine ⟨hI.time, ?_⟩
     intro t ht K hK
-    have hK' : W < K := by rw [hWc]; exact hK
-    have := hI.bal t ht K hK
-    unfold paidAll owedAll at *
-    simp only
+    have hK0 : curWeek s < K := hK
+    have hK' : W < K := by rw [hWc]; exact hK0
+    have h0 := hI.bal t ht K hK0
+    unfold paidAll owedAll at h0
+    show (if n = 0 then upd s.bal tok (s.bal tok + amt) else s.bal) t +
+        usum (List.range K) (fun w => s.a.paid w t) =
+      usum (List.range K)
+        (fun w => upd2 s.a.accumulated W tok (s.a.accumulated W tok + amt) w t + s.a.collected w t)
     by_cases htt : tok = t
     · subst htt
       have hn0 : n = 0 := by
         by_contra hc
         exact ht (hnl (by omega))
+      have e := usum_range_point hK' (f := fun w => s.a.accumulated w tok + s.a.collected w tok)
+        (g := fun w => upd2 s.a.accumulated W tok (s.a.accumulated W tok + amt) w tok +
+          s.a.collected w tok) (d := amt)
+        (by simp only [upd2, and_self, if_true]; omega)
+        (fun w hne => by simp only [upd2, hne, false_and, if_false])
+      rw [e]
       simp only [hn0, if_true, upd_same]
-      rw [usum_range_point hK' (f := fun w => s.a.accumulated w tok + s.a.collected w tok)
-        (d := amt) (by simp [upd2]; omega) (fun w hne => by simp [upd2, hne])]
       omega
     · have hb : (if n = 0 then upd s.bal tok (s.bal tok + amt) else s.bal) t = s.bal t := by
         split
         · exact upd_other _ _ (fun h => htt h.symm)
         · rfl
       rw [hb]
-      rw [usum_congr (g := fun w => s.a.accumulated w t + s.a.collected w t) (fun w _ => by
-        have : ¬ (w = W ∧ t = tok) := fun h => htt h.2.symm
-        simp [upd2, this])]
-      exact this
+      have e : usum (List.range K)
+          (fun w => upd2 s.a.accumulated W tok (s.a.accumulated W tok + amt) w t + s.a.collected w t) =
+          usum (List.range K) (fun w => s.a.accumulated w t + s.a.collected w t) :=
+        usum_congr (fun w _ => by
+          have : ¬ (w = W ∧ t = tok) := fun h => htt h.2.symm
+          simp only [upd2, this, if_false])
+      rw [e]
+      exact h0
   | claim c og =>
     simp only [step, claimRewards, Option.bind_eq_bind, Option.bind_eq_some_iff] at h
     obtain ⟨_, _, h⟩ := h
